@@ -11,6 +11,74 @@ COMMON_NOTE = ('Trusted: Coq 8.16.1 kernel (no axioms: Print Assumptions of ever
                'std iterator adaptors, serde_derive, channel/thread-pool primitives (DESIGN.md section 8).')
 
 CLAIMS = {
+ 'C01': dict(
+    text='Theorem C01_fasta_next_refines_spec: for EVERY input, capacity >= 3, fault-free read script (any chunking, interrupted reads) and '
+         'never-refusing policy, the outcomes of successive next() calls of the reader model are, one by one, the items of the line-based '
+         'whole-input specification fa_spec (records with header, sequence lines and coordinates, or the single InvalidStart), then end of '
+         'input for ever; proved by induction (window invariant, resumable search, termination measure). Tie: model vs real reader on all '
+         'strings up to length 5-7 over the format alphabet x all capacities x 3 chunkings plus structured random files; the extracted fa_spec is the oracle.',
+    technique='Coq refinement proof (reader model refines whole-input spec; induction over input/calls) + model/implementation differential run',
+    ref='5 C01'),
+ 'C02': dict(
+    text='Theorems C02_fastq_next_refines_spec (for every input, capacity, chunking, policy the fq_next outcomes are exactly the items of '
+         'fq_spec_all: records with head/seq/qual and coordinates, then the single error with all fields, then end) and the Spec-level theorems '
+         'of C02s.v (length verdict = trimmed lengths equal, for any terminators; error kinds and lines; blank tail; error terminal). '
+         'Tie: exhaustive small scope + structured random files incl. malformed ones, model vs implementation vs extracted fq_spec.',
+    technique='Coq refinement proof (FASTQ reader model refines fq_spec) + Spec-level theorems + differential run',
+    ref='5 C02'),
+ 'C03': dict(
+    text='Theorems C03_fasta_config_independence / C03_fastq_config_independence: two ARBITRARY configurations (capacity x read script incl. '
+         'interrupts x policy) of the same input give, call by call, the same record contents, positions, error fields and end signal '
+         '(corollary of the two refinement theorems; no reference run in the statement), and C03_fill_buf_chunking_invisible for the refill loop. '
+         'Record sets are covered by the differential run only (pairwise comparison of implementation traces across 5-7 configurations per input, '
+         'plus model/implementation comparison of the read-call and grow_to logs).',
+    technique='Coq proof (corollary of the refinement theorems for next(); fill_buf lemma) + pairwise differential run across configurations',
+    ref='5 C03'),
+ 'C05': dict(
+    text='Theorems C05_fasta_position_after_next / C05_fastq_position_after_next: the position reported after the k-th call is the (line, byte) '
+         'the whole-input specification assigns to the k-th item, for every configuration (corollary of the refinement theorems). Seeking and '
+         'positions after record-set reads are covered by the correspondence run so far (theorems for them are under construction: seeks to every '
+         'saved position from random histories, targets inside and outside the buffer, judged by the Spec cursor machine).',
+    technique='Coq proof (positions: corollary of refinement) + differential run with cursor-machine oracle for seeks',
+    ref='5 C05'),
+ 'C10': dict(
+    text='Theorems of C10.v (19): every FASTA writer entry point round-trips through fa_spec for all headers without LF / trailing CR and all '
+         'sequences without LF, CR, ">" (C10_roundtrip_*, C10_many with coordinates), wrapped lines have width w except the last '
+         '(C10_wrap_widths), chunking is irrelevant for non-empty sequences (C10_chunking_irrelevant), over the writer model whose straight-line '
+         'parts are regenerated from the Rust source (Gen/WriteGen.v). Tie: every entry point run on random and exhaustive small cases, bytes compared '
+         'with the model, outputs parsed back by the real reader.',
+    technique='Coq proof (pure list induction over generated writer definitions) + differential run + re-parse by the implementation',
+    ref='5 C10'),
+ 'C11': dict(
+    text='Theorems C11_fq_roundtrip(_parts), C11_fq_many (FASTQ writers round-trip through fq_spec_all with exact coordinates, for all admissible '
+         'fields). write_unchanged: covered by the correspondence run (concatenated outputs compared with the input bytes for LF/CRLF files with and '
+         'without final terminator at capacities 3..64; re-parse); theorems for it are under construction.',
+    technique='Coq proof (writers vs spec) + differential run with byte comparison and re-parse',
+    ref='5 C11'),
+ 'C12': dict(
+    text='Theorems C12_fasta_parse_alike / C12_fasta_no_cr (any per-line LF/CRLF mixture, final terminator present or absent) and C12_fastq, '
+         'C12_fastq_same, C12_fastq_no_cr (four uniform renderings) at Spec level for all well-formed files; lifted to the readers by the refinement '
+         'theorems C01/C02. Tie: paired runs of the implementation on all renderings of generated files at a small and a large capacity.',
+    technique='Coq proof (Spec-level invariance under line-ending rendering, composed with refinement) + paired differential runs',
+    ref='5 C12'),
+ 'C13': dict(
+    text='Theorems of C13.v (13): for every well-formed record view (FaRecWf/FqRecWf, which the refinement theorem establishes for returned records) all '
+         'accessors succeed and agree (lines, owned_seq, full_seq with its borrowed flag, to_owned, num_seq_lines, both iteration directions, raw seq up to '
+         'terminators), id/desc split laws, UTF-8 split theorem for the text accessors. Tie: every accessor of every record dumped and compared.',
+    technique='Coq proof (views over an offset invariant; UTF-8 DFA lemma) + differential run over all accessors',
+    ref='5 C13'),
+ 'C17': dict(
+    text='Theorems C17_fasta_error_fields / C17_fastq_error_fields (the error returned is the specification error item field by field for every '
+         'configuration), C02s error-kind/line theorems, and C17m.v (13 theorems: the rendered message, built from format strings regenerated from the Rust '
+         'source, contains line, found byte, lengths and id). Tie: malformed inputs at every alignment, all fields and to_string() compared.',
+    technique='Coq proof (refinement corollary + message rendering over generated format strings) + differential run',
+    ref='5 C17'),
+ 'C19': dict(
+    text='Theorems of C19.v (11): the six serialised structs (schemas regenerated from the Rust source) are plain and round-trip for ALL values incl. stale '
+         'offsets; iteration of a deserialised set equals the original. serde_derive itself is trusted. Tie: real serde_json round trips of reused record sets '
+         'and owned records in random histories.',
+    technique='Coq proof over schemas generated from the source + real serde_json round trips in the harness',
+    ref='5 C19'),
  'C20': dict(
     text='Theorems (Props/C20.v): for every record and every sequence of front/back steps the SeqLines model refines a '
          'double-ended queue over the record\'s lines (each line once, ends meet, len()/size_hint() exact after every step, fused, '
